@@ -108,6 +108,9 @@ class StmtMixin:
         return self.ev(v, st, lambda s, x: self.ok(s))
 
     def do_yield(self, st, x):
+        yh = self.cur[0].extra.get('yield_handler') if self.cur else None
+        if yh is not None:
+            return yh(self, st, x)
         y = st.ghost.get('__yield__')
         if y is None:
             raise Unsupported("yield outside a generator contract")
